@@ -48,7 +48,7 @@ META = {
              "token grammar x names from a path grammar biased towards near-matches; pattern lists of 1..250 patterns "
              "crossing the 99 boundary per kind; non-trivial = at least one name matched and one not"),
 }
-SHARD = 120
+SHARD = 250
 
 KINDS = {"extension": "KExt", "basename": "KBase", "fullpath": "KFull"}
 SPECIALS = "(){}|^$+."
@@ -456,11 +456,11 @@ def cases(rng, tier):
     for n in range(maxlen + 1):
         for t in itertools.product(ALPHA_EXH, repeat=n):
             p = "".join(t)
-            if n == maxlen and rng.random() < (0.75 if quick else 0.8):
+            if n == maxlen and rng.random() < (0.75 if quick else 0.94):
                 continue
             yield {"kind": "translate", "p": p}
     # 2. direct translator calls on un-normalized strings (backslashes, //, trailing /)
-    for _ in range(400 if quick else 6000):
+    for _ in range(400 if quick else 3000):
         n = rng.randint(1, 7)
         p = "".join(rng.choice("ab*?[]!^-/.\\\\(|") for _ in range(n))
         yield {"kind": "sub", "k": rng.choice(list(KINDS)), "p": p}
@@ -472,19 +472,19 @@ def cases(rng, tier):
     for n in range(1, maxlen3 + 1):
         for t in itertools.product(alpha3, repeat=n):
             p = "".join(t)
-            if n == maxlen3 and rng.random() < (0.6 if quick else 0.5):
+            if n == maxlen3 and rng.random() < (0.6 if quick else 0.7):
                 continue
             yield {"kind": "match", "mode": "plain", "pats": [p], "names": names3}
     # 4. structured single patterns, near-miss names
-    for _ in range(500 if quick else 12000):
+    for _ in range(500 if quick else 8000):
         p = gen_pattern(rng)
         yield {"kind": "match", "mode": rng.choice(["plain", "plain", "ordered"]), "pats": [p],
                "names": names_for(rng, [p], 8)}
-    for _ in range(150 if quick else 3000):
+    for _ in range(150 if quick else 2000):
         p = gen_pattern(rng)
         yield {"kind": "ref", "p": p, "names": names_for(rng, [p], 8)}
     # 5. raw (un-normalized, kind forced): backslash escapes
-    for _ in range(150 if quick else 3000):
+    for _ in range(150 if quick else 2000):
         k = rng.choice(list(KINDS))
         body = "".join(rng.choice(["a", "b", "\\*", "\\?", "\\[", "\\.", "*", "?", "\\]", "\\-", "[ab]", ".", "\\\\", "\\a"])
                        for _ in range(rng.randint(1, 4)))
@@ -495,7 +495,7 @@ def cases(rng, tier):
             [gen_name(rng) for _ in range(3)]
         yield {"kind": "raw", "k": k, "p": p, "names": nm}
     # 6. small and medium lists, all modes
-    for _ in range(300 if quick else 6000):
+    for _ in range(300 if quick else 4000):
         n = rng.choice([2, 3, 3, 5, 8, 13])
         pats = [gen_pattern(rng) for _ in range(n)]
         mode = rng.choice(["plain", "exc", "exc", "ordered"])
@@ -506,7 +506,7 @@ def cases(rng, tier):
         yield {"kind": "match", "mode": mode, "pats": pats, "names": names_for(rng, pats, 10)}
     # 7. big lists crossing the 99 boundary of one kind at several offsets
     sizes = [98, 99, 100, 101, 150, 197, 198, 199, 200, 250]
-    reps = 1 if quick else 12
+    reps = 1 if quick else 8
     for _ in range(reps):
         for n in sizes:
             for kind in KINDS:
@@ -539,7 +539,7 @@ def cases(rng, tier):
                     yield {"kind": "joined", "k": kind, "pats": [py_normalize(p.lstrip("!")) for p in pats
                                                                 if not py_opaque(p)][:rng.randint(1, 6)]}
     # 6b. ignore files through breezy.ignores.parse_ignore_file (a set: only ignored-ness is observed)
-    for _ in range(120 if quick else 2500):
+    for _ in range(120 if quick else 1500):
         lines = []
         for _i in range(rng.randint(1, 8)):
             r = rng.random()
@@ -552,7 +552,7 @@ def cases(rng, tier):
         pats = [l for l in lines if l.rstrip("\r") and not l.startswith("#")]
         yield {"kind": "ignorefile", "lines": lines, "names": names_for(rng, [p.rstrip("\r") for p in pats], 8)}
     # 8. opaque patterns (RE:, named classes): oracle only (Python re as the reference), model skipped
-    for _ in range(60 if quick else 1500):
+    for _ in range(60 if quick else 1000):
         pats = [gen_pattern(rng) for _ in range(rng.randint(0, 3))]
         pats.append(rng.choice(["RE:a.*", "RE:^x/[ab]+$", "RE:(?i:foo)", "RE:(a|b)c", "*.[[:digit:]]", "[[:alnum:]]x",
                                 "a/[[:space:]]b", "RE:.*\\.py[co]"]))
